@@ -120,6 +120,11 @@ var (
 func Thorough() bool { return Tier == "thorough" }
 
 // N picks a case count by tier; thorough counts are divided over shards.
+var raceWorkload = os.Getenv("VERIF_RACE") == "1"
+
+// Race reports whether this binary runs as a workload of C15's race pass.
+func Race() bool { return raceWorkload }
+
 func N(quick, thorough int) int {
 	if os.Getenv("VERIF_RACE") == "1" {
 		// race-instrumented binaries are several times slower: a quarter of the cases
@@ -468,6 +473,15 @@ func trunc(raw []byte) json.RawMessage {
 func (s *Sub[C]) Once(c C) *Failure {
 	o := &Obs{}
 	f := s.safeRun(c, o)
+	if raceWorkload {
+		// C15's race pass runs this check as a workload for the race detector: a functional failure belongs to
+		// the property's own check and must not end the workload at its first case (rapid stops at a failure, and
+		// a defect that breaks both would then never get as far as the detector's report)
+		if f != nil {
+			o.Class("functional-failure-left-to-the-property's-own-check")
+		}
+		return s.account(c, o, nil)
+	}
 	// a failure whose text names exhaustion of the sandbox itself (no free loopback port, no file
 	// descriptors) says nothing about reservoir: wait for the machine to recover and run the case again;
 	// if it persists the case is dropped and the run is reported inconclusive, never as a violation
